@@ -250,7 +250,7 @@ func TestVerif(t *testing.T) {
 		return
 	}
 	algos := []string{"", "gzip", "zlib", "deflate", "zstd", "snappy", "lz4"}
-	levels := map[string][]int{"": {0}, "gzip": {0, -2, 1, 9}, "zlib": {0, 1, 9}, "deflate": {0, -2, 9}, "zstd": {0, 1, 11}, "snappy": {0}, "lz4": {0}}
+	levels := map[string][]int{"": {0}, "gzip": {0, -2, 1, 9}, "zlib": {0, 1, 9}, "deflate": {0, -2, 9}, "zstd": {0, 1, 3, 6, 11}, "snappy": {0}, "lz4": {0}}
 	thorough := !ctx.Quick()
 	var lits [][]byte
 	for _, a := range []byte{0, 1, 0xff} {
@@ -325,6 +325,43 @@ func TestVerif(t *testing.T) {
 				}
 			}
 			e.close()
+		}
+	}
+	// large bodies (at and beyond the codecs' block and window sizes) x every algorithm x EVERY level, under a limit that
+	// admits them: "for every body and every compression algorithm [and level] ... reads exactly the bytes"
+	{
+		n++
+		if ctx.Mine(n) {
+			const big = 16 << 20
+			e, err := c16NewEnv(big, nil)
+			if err != nil {
+				ctx.Infra("server: %v", err)
+			} else {
+				for _, alg := range algos {
+					for _, lv := range levels[alg] {
+						for _, kind := range []string{"noise", "pattern"} {
+							for _, sz := range []int{128<<10 - 1, 128 << 10, 300 << 10, 1 << 20, 9 << 20} {
+								if sz > 1<<20 && !(kind == "noise" && (lv == 0 || alg == "zstd")) {
+									continue
+								}
+								c := c16Case{Alg: alg, Level: lv, Kind: kind, Size: sz, Limit: big, EnabledN: "default"}
+								ctx.R.Evals++
+								ctx.R.Trans++
+								ctx.Nontrivial(vr.Hash("big", c.Alg, c.Level, c.Kind, c.Size))
+								sig, what := c16Run(e, c)
+								if sig != "" {
+									ctx.Violate(sig+":"+c.Alg, what, c)
+									ctx.Outcome(sig)
+								} else {
+									ctx.R.Traces++
+									ctx.Outcome(fmt.Sprintf("ok:handler-ran=%v", e.calls > 0))
+								}
+							}
+						}
+					}
+				}
+				e.close()
+			}
 		}
 	}
 	// enabled-decoder lists: EVERY subset of the seven names x every algorithm, one small body each (the "not enabled =>
